@@ -33,7 +33,7 @@ def oracle_exception(c: Case, tr: Trace) -> Optional[str]:
             last_p = i
     inner = toks[last_p:]
     raises = [l.split() for l in tr.events if l.startswith('ra ')]
-    acts = [l.split() for l in tr.events if l.startswith('ap ') or l.startswith('a0 ')]
+    acts = [l.split() for l in tr.events if l.startswith('ap ') or l.startswith('a0 ') or l.startswith('rp ')]
     if inner[0] == 'P':
         if int(inner[1]) == -2:
             return f"parse_error with an unexpected message: {tr.result}"
@@ -54,6 +54,10 @@ def oracle_exception(c: Case, tr: Trace) -> Optional[str]:
                     start = int(p[4])
             elif p[0] == 'X':
                 furthest = max(furthest, int(p[3]))
+            elif p[0] in ('st', 'su', 'fa', 'uw', 'a0'):
+                furthest = max(furthest, int(p[2]))      # where the attempt stood when the hook ran (before any rewinding)
+            elif p[0] == 'ap':
+                furthest = max(furthest, int(p[5]))
             if p[0] == 'ra' and p is not None and p[1] == blamed and l.split() == lr:
                 break
         pos = int(inner[2])
@@ -83,6 +87,15 @@ def oracle_conversion(c: Case, tr: Trace) -> Optional[str]:
         elif t in ('ap', 'a0'):
             a = c.g.acts.get(int(p[1])) if c.cfg.fam == 0 else c.g.fams.get(c.cfg.fam, {}).get(int(p[1]))
             last_origin = (('std' if (a and a.throw_std) else 'other'), p[1])
+        elif t == 'rp':
+            # a rule-level action class named by apply< … > / if_apply< R, … >: (id, isBool, vetoMod, throwMod, throwStd)
+            std = False
+            for nd0 in c.g.nodes.values():
+                if nd0.kind in ('ifApply', 'applyR'):
+                    for ra in nd0.params[-1]:
+                        if int(ra[0]) == int(p[1]):
+                            std = bool(ra[4])
+            last_origin = (('std' if std else 'other'), p[1])
         elif t == 'X':
             nid = int(p[1])
             nd = c.g.nodes.get(nid)
@@ -116,7 +129,7 @@ ORACLES = [('exception', oracle_exception), ('conversion', oracle_conversion)]
 def run(tier: str) -> int:
     cfgu = profiles.amr_configs(ams=((1, 'r'), (1, 'o'), (0, 'o')), unwinds=(1,), lazies=(0, 1))
     ps = [
-        profiles.systematic_profile('raise', lambda k, f: f == 'raise', True, 26, 150, ORACLES + [('sem', oracle_sem)], use_sem=True,
+        profiles.systematic_profile('raise', lambda k, f: f == 'raise', True, 26, 150, ORACLES + [('sem', oracle_sem)], use_sem=True, actions_mode='none+msg',
                                     inputs=profiles.inputs_exhaustive(3, 5, cap_q=90, cap_t=600), per_tu=2, configs=cfgu,
                                     ctx_names=['top', 'sor-first', 'seq-tail', 'in-at', 'in-not_at', 'in-opt', 'in-tcrf', 'in-must']),
         profiles.systematic_profile('conv', lambda k, f: f in ('conv', 'rep', 'core'), True, 16, 100, ORACLES + [('sem', oracle_sem)], use_sem=True,
@@ -131,8 +144,9 @@ def run(tier: str) -> int:
                                     configs=profiles.amr_configs(ams=((1, 'r'), (1, 'o')), unwinds=(1,)),
                                     ctx_names=['top', 'sor-first', 'seq-tail', 'in-tcrf']),
     ]
-    from .c05_mustif import mustif_part
-    return engine.run_engine('C05', tier, ['PegtlVerif.Props.C05'], ps, extra=lambda v, cov, rng: mustif_part(v, cov, rng, tier))
+    from .c05_mustif import oracle_mustif
+    ps.append(profiles.mustif_profile('mi', 14, 70, [('must_if', oracle_mustif), ('exception', oracle_exception)], per_tu=2))
+    return engine.run_engine('C05', tier, ['PegtlVerif.Props.C05'], ps)
 
 
 def replay(path: str) -> int:
